@@ -42,6 +42,7 @@ import inspect
 import io
 import sys
 import threading
+import time
 
 from impl_c08 import VR
 
@@ -91,7 +92,7 @@ def _unraisable(u):
 sys.unraisablehook = _unraisable
 
 CLEANUP_FUNCS = ("close", "finalize", "__del__", "_finalize_render_data_")
-TIMEOUT = 12  # seconds; only ever waited out when something is broken
+TIMEOUT = 30  # seconds; only ever waited out when something is broken
 
 # ================================================================= ctor
 
@@ -500,8 +501,11 @@ def run_nest(case):
             th = threading.Thread(target=work, daemon=True)
             pending[:] = [idx, th, gate, err]
             th.start()
-            if not gate[0].wait(TIMEOUT):
-                out = 3
+            deadline = time.monotonic() + TIMEOUT
+            while not gate[0].wait(0.01):  # ... or its close() came back without ever reaching the gate
+                if not th.is_alive() or time.monotonic() > deadline:
+                    out = 3
+                    break
             targets = ends(slot)
             sched = [idx, moves, 0]
         elif what == "trelease":  # the gate opens, the second thread finishes its close()
